@@ -366,6 +366,13 @@ def run_case(acc, c, only_prefix=None):
             if s.outcome != "ok":
                 acc.violation(V("thread_" + s.outcome, f"scenario {c['scenario']}: {s.outcome} (some thread is left blocked)"), case,
                               tuple(x for _, _, x in s.choices), None, "")
+                if s.outcome == "hang":
+                    # a thread that neither finishes nor reaches a scheduling point may be SPINNING: it keeps the interpreter busy for the
+                    # rest of this process, so the shard ends here (what was found so far is reported, the run is marked non-exhaustive)
+                    from ..acc import StopShard
+                    acc.capped_at = acc.cases
+                    acc.extra["stopped_after_thread_hang"] = 1
+                    raise StopShard()
                 continue
             for ti, (got_t, want_t) in enumerate(zip(s.final, want)):
                 for oi, (got, w) in enumerate(zip(got_t, want_t)):
